@@ -491,3 +491,48 @@ func (f *FCFG) ReachesFwdNode(a, b ast.Node) bool {
 	}
 	return false
 }
+
+// exitAvoidingAll: some path leads from the START of statement `from` to a
+// function exit without executing any of the avoid nodes.
+func (f *FCFG) exitAvoidingAll(from ast.Node, avoid []ast.Node) bool {
+	lf, ok1 := f.Locate(from)
+	if !ok1 {
+		return true
+	}
+	block := map[Loc]bool{}
+	for _, a := range avoid {
+		if la, ok := f.Locate(a); ok {
+			block[la] = true
+		}
+	}
+	type st struct {
+		b *cfg.Block
+		i int
+	}
+	seen := map[*cfg.Block]bool{}
+	work := []st{{lf.B, lf.I}}
+	for len(work) > 0 {
+		cur := work[len(work)-1]
+		work = work[:len(work)-1]
+		blocked := false
+		for i := cur.i; i < len(cur.b.Nodes); i++ {
+			if block[Loc{cur.b, i}] {
+				blocked = true
+				break
+			}
+		}
+		if blocked {
+			continue
+		}
+		if len(cur.b.Succs) == 0 {
+			return true
+		}
+		for _, s := range cur.b.Succs {
+			if !seen[s] {
+				seen[s] = true
+				work = append(work, st{s, 0})
+			}
+		}
+	}
+	return false
+}
